@@ -97,7 +97,11 @@ pub fn evaluate(case: &IssueCase, acc: &mut Acc, prop: &str) {
         }
         other => {
             acc.bump("present-failed");
-            acc.violate(sig(&format!("present:{}", other.short())), format!("the token was refused under its own key/footer/assertion: {}", other.short()), json!({"issue": case, "token": token}));
+            acc.violate(
+                sig(&format!("present:{}", other.short())),
+                format!("the token was refused under its own key/footer/assertion: {}", other.short()),
+                json!({"issue": case, "token": token, "unit_test": crate::cases::unit_test_for(&pres, "r.is_ok()", "a token produced by the library under this key / footer / assertion: must be accepted")}),
+            );
         }
     }
 }
